@@ -815,6 +815,20 @@ def make_stack(spec):
         scale = max([1.0] + [float(np.max(np.abs(v))) for v in A.values() if isinstance(v, np.ndarray) and v.size and v.dtype.kind == "f"])
         tol = 1e-9 * scale * scale
         mixed = spec["stream"] == "float-mixed"
+        # the same stack in column-major memory order is the same stack
+        if k >= 2 and not mixed and not st.get("single"):     # (the line / plane twins decide `parallel` by an exact zero: not
+            try:                                                 # comparable across summation orders, see xsection_undetermined)
+                fort = as_list(e.call({a: (np.asfortranarray(v) if isinstance(v, np.ndarray) and v.ndim >= 2 else
+                                           (v.copy() if isinstance(v, np.ndarray) else v)) for a, v in A.items()}, make_self(sk)))
+            except Exception as ex:  # noqa: BLE001
+                obs["msgs"].append(("stack-is-map/%s" % e.name, "%s raised %s for column-major arguments" % (what, type(ex).__name__)))
+            else:
+                for j, (o1, o2) in enumerate(zip(full, fort)):
+                    if o1.shape != o2.shape or (o1.dtype.kind == "f" and not np.allclose(o1, o2, rtol=1e-9, atol=tol, equal_nan=True)) \
+                            or (o1.dtype.kind != "f" and spec["stream"] == "lattice" and not np.array_equal(o1, o2)):
+                        obs["msgs"].append(("stack-is-map/%s" % e.name, "%s: output %d differs when the same arguments are given in "
+                                            "column-major order: %s vs %s" % (what, j, o2.tolist(), o1.tolist())))
+                        break
         for i in range(k):
             if mixed:
                 # judged at the row's own size (the other rows are up to 1e80 times larger)
